@@ -38,10 +38,33 @@ class Injector:
                 inj.log.append((mode, os.path.basename(str(file))))
             return builtins.open(file, mode, *a, **kw)
         tr.open = opener
+
+        # removals and renames are file operations too: a process can die between a remove and a rename
+        class OsProxy:
+            def __getattr__(self_, name):
+                return getattr(os, name)
+        proxy = OsProxy()
+        for fname in ("remove", "unlink", "rename", "replace"):
+            def make(fname):
+                real = getattr(os, fname)
+
+                def op(*a, **kw):
+                    if inj.armed:
+                        inj.count += 1
+                        if inj.fail_at is not None and inj.count == inj.fail_at:
+                            raise Crash("injected crash before file operation %d (os.%s %s)" % (
+                                inj.count, fname, " ".join(os.path.basename(str(x)) for x in a)))
+                        inj.log.append((fname, os.path.basename(str(a[0])) if a else ""))
+                    return real(*a, **kw)
+                return op
+            setattr(proxy, fname, make(fname))
+        self.real_os = tr.os
+        tr.os = proxy
         return self
 
     def __exit__(self, *exc):
         del self.tr.open
+        self.tr.os = self.real_os
         return False
 
 
@@ -166,7 +189,7 @@ def run(ctx):
                 "inside a page roll-over; distinct by (pitch, completed mod pitch, position inside the collect)")
     ctx.assumptions += ["granularity: an open-for-write/append + write + close is one atomic file operation (as the property "
                         "states); truncation inside one `with open(...,'w')` is outside the quantifier",
-                        "fault injection patches `open` as seen by mudslide.tracer"]
+                        "fault injection patches `open` and `os.remove/unlink/rename/replace` as seen by mudslide.tracer"]
     ctx.fingerprints["mudslide/tracer.py"] = fingerprint("mudslide/tracer.py", ["collect", "write_main_log", "__init__"])
     ctx.proofs()
     rng = ctx.rng
